@@ -61,17 +61,18 @@ Proof.
   intros H _. destruct s as [q| | | | |w|w|k w|r h|].
   - destruct H as [-> Hq]. destruct e; cbn; try reflexivity; split; try reflexivity; try exact Hq;
       rewrite forallb_app, Hq; reflexivity.
-  - cbn in H; subst l. destruct e as [| | | |b|i| | | | |]; cbn; try close_wire.
-  - cbn in H; subst l. destruct e as [| | | |[|]|i| | | | |]; cbn; try close_wire.
-  - destruct H as (k & ->). destruct e as [| | | |[|]|i| | | | |]; cbn; try close_wire.
-  - cbn in H; subst l. destruct e as [| | | |[|]|i| | | | |]; cbn; try close_wire.
+  - cbn in H; subst l. destruct e as [| | | |b|i| | | | | |]; cbn; try close_wire.
+  - cbn in H; subst l. destruct e as [| | | |[|]|i| | | | | |]; cbn; try close_wire.
+  - destruct H as (k & ->). destruct e as [| | | |[|]|i| | | | | |]; cbn; try close_wire.
+  - cbn in H; subst l. destruct e as [| | | |[|]|i| | | | | |]; cbn; try close_wire.
   - cbn in H; subst l.
-    destruct e as [| | | |[|]|i| | | | |]; cbn [step1];
+    destruct e as [| | | |[|]|i| | | | | |]; destruct w; cbn [step1];
       try (apply finish_G; left; reflexivity); cbn; reflexivity.
-  - destruct e as [| | | |[|]|i| | | | |]; cbn [step1];
-      try (apply finish_G; right; exact H); cbn; rewrite app_nil_r; exact H.
   - assert (H' : err_wire l) by exact H.
-    destruct e as [| | | |[|]|i| | | | |]; destruct w; cbn [step1];
+    destruct e as [| | | |[|]|i| | | | | |]; destruct w; cbn [step1];
+      try (apply finish_G; right; exact H'); cbn; rewrite app_nil_r; exact H'.
+  - assert (H' : err_wire l) by exact H.
+    destruct e as [| | | |[|]|i| | | | | |]; destruct w; cbn [step1];
       try (apply finish_G; right; exact H');
       cbn; rewrite ?app_nil_r; exact H'.
   - destruct e; destruct h; cbn; rewrite app_nil_r; exact H.
@@ -140,7 +141,7 @@ Qed.
 
 Lemma weof_stops s e : In WEof (snd (step1 s e)) -> stopped (fst (step1 s e)) = true.
 Proof.
-  destruct s as [q| | | | |w|w|k w|r h|]; destruct e as [| | | |[|]|i| | | | |];
+  destruct s as [q| | | | |w|w|k w|r h|]; destruct e as [| | | |[|]|i| | | | | |];
     try destruct w; try destruct h; cbn;
     try (destruct (is_peer _); cbn); intuition discriminate.
 Qed.
@@ -172,7 +173,7 @@ Lemma discarding_ignores s e : discarding s = true -> is_peer_close_or_eof e = f
   (is_peer e = true -> fst (step s e) = s).
 Proof.
   destruct s as [q| | | | |w|w|k w|r h|]; try discriminate; intros _;
-    destruct e as [| | | |[|]|i| | | | |]; try discriminate; intros _; cbn;
+    destruct e as [| | | |[|]|i| | | | | |]; try discriminate; intros _; cbn;
     try (destruct w; cbn); repeat split; intros; congruence.
 Qed.
 
@@ -216,7 +217,7 @@ Lemma closesent_inflight w evs : forallb inflight evs = true ->
 Proof.
   induction evs as [|e evs IH]; intros H; [reflexivity|].
   cbn in H. apply andb_prop in H as [He H]. cbn [run map].
-  assert (E : step (SCloseSent w) e = (SCloseSent w, [])) by (destruct e; try discriminate; reflexivity).
+  assert (E : step (SCloseSent w) e = (SCloseSent w, [])) by (destruct e; try discriminate; destruct w; reflexivity).
   rewrite E, (IH H). reflexivity.
 Qed.
 
